@@ -210,21 +210,28 @@ def _gamma_update(fn, count_expr) -> List[str]:
     from ..pattern import statements, unify
     S = statements(fn)
     problems = []
+    UNIT = "self.target.likelihood.distribution(np.array([1]))"
     core = ["$b=self.target.likelihood.data", "$Ax=self.target.likelihood.distribution.mean",
-            "$L=self.target.likelihood.distribution(np.array([1])).sqrtprec", "$al=self.target.prior.shape", "$be=self.target.prior.rate"]
+            f"$L={UNIT}.sqrtprec", "$al=self.target.prior.shape", "$be=self.target.prior.rate"]
     bnd, fail = unify(core, S)
+    if bnd is None:      # same quantities with the unit-parameter Gaussian held in a local
+        core = ["$b=self.target.likelihood.data", f"$U={UNIT}", "$Ax=self.target.likelihood.distribution.mean",
+                "$L=$U.sqrtprec", "$al=self.target.prior.shape", "$be=self.target.prior.rate"]
+        bnd, fail = unify(core, S)
     if bnd is None:
         return [f"`{core[fail]}` not found: data, mean, unit-parameter sqrt-precision and Gamma shape/rate must come from the target's likelihood and prior"]
     mb = None
     for ce in count_expr:
+        if "$U" in ce and "U" not in bnd:
+            ce = ce.replace("$U", UNIT)
         mb, _ = unify(["$m=" + ce.replace("b)", "$b)")], S, bnd)
         if mb is not None:
             break
     if mb is None:
-        cand, _ = unify(["$m=$rhs"], [(t, a) for t, a in S if t.split("=")[0] not in bnd.values() and ("len(" in t or "count_nonzero" in t)], bnd, distinct=False)
-        shown = [t for t, a in S if "len(" in t or "count_nonzero" in t]
-        problems.append(f"the count entering the Gamma shape is `{shown[0] if shown else '?'}`: it must count the data entries ({' or '.join(count_expr)}), "
-                        f"not another vector whose length may differ (a scalar mean is stored with length 1)")
+        shown = [t for t, a in S if "len(" in t or "count_nonzero" in t or ".rank" in t or "_rank" in t]
+        problems.append(f"the count entering the Gamma shape is `{shown[0] if shown else '?'}`: it must be {' or '.join(count_expr)} "
+                        f"(the exponent of the hyper-parameter in the likelihood's density is rank/2; a vector length may differ from it: a scalar mean is "
+                        f"stored with length 1, an improper GMRF has rank dim-1)")
         mb = dict(bnd)
         mb["m"] = shown[0].split("=")[0] if shown else "m"
     db, _ = unify(["$dist=Gamma(shape=$m/2+$al,rate=0.5*np.linalg.norm($L@($Ax-$b))**2+$be)", "return $dist.sample()"], S, mb)
@@ -235,19 +242,43 @@ def _gamma_update(fn, count_expr) -> List[str]:
 
 
 def _r4(chk, repo):
-    for pair, cnt in (("_GaussianGammaPair", ("len(b)",)), ("_RegularizedGaussianGammaPair", ("np.count_nonzero(b)",))):
+    for pair, cnt in (("_GaussianGammaPair", ("$U.rank",)), ("_RegularizedGaussianGammaPair", ("np.count_nonzero(b)",))):
         ci = repo.cls(f"{EXP}:{pair}")
         f = repo.method(ci, "sample")[1]
         pr = _gamma_update(f, cnt)
-        chk.add("C10-R4", f"{ci.qual}.sample", not pr, site(repo, f), "Gamma(m/2+alpha, ||L(Ax-b)||^2/2+beta), m counted on the data", "; ".join(pr), f)
+        chk.add("C10-R4", f"{ci.qual}.sample", not pr, site(repo, f), "Gamma(m/2+alpha, ||L(Ax-b)||^2/2+beta), m = rank of the unit-parameter Gaussian (non-zero data entries for the regularized pair)", "; ".join(pr), f)
     leg = repo.cls(f"{LEG}:Conjugate")
     f = repo.method(leg, "step")[1]
     pr = _gamma_update(f, ("self._calc_m_for_Gaussians(b)",))
     cm = repo.method(leg, "_calc_m_for_Gaussians")[1]
     rets = [_norm(n.value) for n in ast.walk(cm) if isinstance(n, ast.Return)]
-    if rets != ["len(b)", "np.count_nonzero(b)"]:
+    if rets != ["self.target.likelihood.distribution(np.array([1])).rank", "np.count_nonzero(b)"]:
         pr.append(f"_calc_m_for_Gaussians returns {rets}")
     chk.add("C10-R4", f"{leg.qual}.step", not pr, site(repo, f), "same update as the experimental pairs (sibling agreement)", "; ".join(pr), f)
+    # the rank the update counts is the exponent the densities use for the hyper-parameter
+    gm = repo.cls("cuqi/distribution/_gmrf.py:GMRF")
+    rp = gm.props.get("rank")
+    lp = repo.method(gm, "logpdf")[1]
+    pr = []
+    if rp is None or rp.getter is None:
+        pr.append("GMRF has no `rank` property (the conjugate update reads <unit-parameter Gaussian>.rank)")
+    else:
+        rets = [_norm(r.value) for r in ast.walk(rp.getter) if isinstance(r, ast.Return)]
+        fld = rets[0] if len(rets) == 1 else None
+        if fld is None or not fld.startswith("self."):
+            pr.append(f"GMRF.rank returns {rets}")
+        elif f"{fld}*(np.log(self.prec)" not in _norm(lp) and f"{fld}*np.log(self.prec)" not in _norm(lp):
+            pr.append(f"GMRF.rank returns `{fld}` but GMRF.logpdf does not multiply log(prec) by that field: the density's exponent of the precision "
+                      f"and the count used by the conjugate update would differ")
+    chk.add("C10-R4", f"{gm.qual}.@rank", not pr, site(repo, lp), "GMRF.rank is the multiplier of log(prec) in GMRF.logpdf", "; ".join(pr), lp)
+    ga = repo.cls("cuqi/distribution/_gaussian.py:Gaussian")
+    rp = ga.props.get("rank")
+    pr = []
+    rets = [_norm(r.value) for r in ast.walk(rp.getter) if isinstance(r, ast.Return)] if rp is not None and rp.getter is not None else []
+    lpg = _norm(repo.method(ga, "logpdf")[1])
+    if rets != ["self._rank"] or "self.rank*np.log(2*np.pi)" not in lpg:
+        pr.append(f"Gaussian.rank returns {rets}; logpdf normalises with `{'self.rank' if 'self.rank' in lpg else '?'}`")
+    chk.add("C10-R4", f"{ga.qual}.@rank", not pr, site(repo, rp.getter if rp and rp.getter else ga.node), "Gaussian.rank is the count in Gaussian.logpdf's normalising constant", "; ".join(pr), None)
     step = repo.method(repo.cls(f"{EXP}:Conjugate"), "step")[1]
     body = [_norm(s) for s in step.body]
     chk.add("C10-R4", f"{EXP}:Conjugate.step", body == ["self.current_point=self._conjugatepair.sample()", "return1"], site(repo, step),
